@@ -62,6 +62,27 @@ CLAIMED = {
             "a_mu function, the resummation factors, uncertainties and all masses are compared between the two runs.",
             "tolerance normalised by the sum of |terms| built from the library's helper arrays (only as a scale)",
             "4/C06"),
+    "C10": ("property-based testing (Hypothesis): metamorphic relations in the SM limit (two common Higgs masses) and "
+            "along a heavy-scale ladder at fixed quartic couplings",
+            "Generated aligned mass-basis points evaluated at two values of m_h = m_hSM, and generated perturbative "
+            "gauge-basis points followed over M = 1..31.6 TeV; independence of the common Higgs mass and the (v/M)^2 "
+            "envelope are checked per component.",
+            "envelope reading of 'up to logarithms'; one open known finding (rounding noise of the bosonic nonYuk part)",
+            "4/C10"),
+    "C11": ("property-based testing (Hypothesis): one-parameter paths through generated mass coincidences, chord-band "
+            "continuity oracle and finiteness",
+            "Generated base points and coincidence targets (equalities, sums/differences, doubles/halves, Kaellen zeros, "
+            "MZ, MW, 2MW, m_hSM, fermion masses); 23 offsets per path down to 1e-13; every a_mu component must be finite and "
+            "stay within 1 % of the chord.",
+            "magnitudes of cancelling sums are measured by their terms; three open known findings (removable "
+            "singularities of the two-loop THDM formulas)",
+            "4/C11"),
+    "C20": ("property-based testing (Hypothesis): unitarity and rejection oracle for CKM construction, defining relations "
+            "of EW quantities, monotonicity/composition/boundary relations and an mpmath reference for running masses",
+            "Generated Wolfenstein parameters inside/at/outside the admissible box, angles, SM inputs and scales over "
+            "six decades; running-coupling bypass checked through the THDM Yukawa getters.",
+            "m_b(SM5) reference re-implements hep-ph/0207126 formulas; one open known finding (Landau pole above m_b)",
+            "4/C20"),
     "C18": ("property-based testing (Hypothesis): documented uncertainty sums recomputed from the public a_mu functions; "
             "overload differential",
             "Generated MSSM and THDM models including light new physics and cancelling loop orders; finiteness, sign, "
